@@ -14,6 +14,8 @@ package main
 import (
 	"encoding/json"
 	"fmt"
+	"os"
+	"sort"
 	"strings"
 	"time"
 
@@ -59,6 +61,49 @@ func (c *ctx) GetKey(key string) string {
 }
 
 const nul = "\x00"
+
+// numeric matches for the all-builtins family (indices 3 and 4)
+var numMatches = []*match{
+	// small on purpose: counts and ranges built from them stay tiny
+	{Groups: []string{"1337", "100", "7"}, Keys: map[string]string{"k": "b", "n": "2"}},
+	{Groups: []string{"2468", "60", "3"}, Keys: map[string]string{"k": "q", "n": "3"}},
+}
+
+// builtinPrograms builds one small program per builtin function, arity and
+// argument style that compiles: every helper is then evaluated by two
+// goroutines with different numeric matches (a scratch buffer or cache hoisted
+// into a compiled stage is shared by all workers of the extractor).
+func builtinPrograms() []program {
+	var names []string
+	for n := range funclib.Builtins {
+		names = append(names, n)
+	}
+	sort.Strings(names)
+	var out []program
+	for _, n := range names {
+		if n == "@for" { // a group value as condition never turns false: the loop runs to its iteration cap (covered by the for-key program)
+			continue
+		}
+		for arity := 1; arity <= 3; arity++ {
+			for _, style := range []string{"dyn", "lastconst"} {
+				args := []string{"{0}", "{1}", "{2}"}[:arity]
+				if style == "lastconst" {
+					if arity == 1 {
+						continue
+					}
+					args = append(append([]string{}, args[:arity-1]...), "2")
+				}
+				t := "{" + n + " " + strings.Join(args, " ") + "}"
+				p := program{Prop: "C10", Name: "builtin/" + n, Template: t}
+				if _, err := compile(&p, true); err != nil {
+					continue
+				}
+				out = append(out, p)
+			}
+		}
+	}
+	return out
+}
 
 var matches = []*match{
 	{Groups: []string{"a" + nul + "b" + nul + "c", "x,y", "2021-03-04 05:06:07"}, Keys: map[string]string{"k": "b", "n": "2"}},
@@ -276,7 +321,109 @@ func worker(w *runner.W) {
 			}
 		}
 	}
+	if w.Prop == "C10" {
+		builtinFamily(w, &unitNo)
+	}
 	w.Max("deviation_bound_completed", int64(bound))
+}
+
+// builtinFamily: every builtin under two concurrent evaluators, 1 deviation
+// (quick) / 2 (thorough); the oracle is the race detector plus equality with
+// the evaluation alone.
+func builtinFamily(w *runner.W, unitNo *int64) {
+	b := 1
+	if !w.Quick() {
+		b = 2
+	}
+	base := len(matches)
+	matches = append(matches, numMatches...)
+	defer func() { matches = matches[:base] }()
+	for _, p := range builtinPrograms() {
+		*unitNo++
+		if !w.Owns(*unitNo) {
+			continue
+		}
+		if w.Expired() {
+			return
+		}
+		p := p
+		t0 := time.Now()
+		defer func(t0 time.Time, name string) {
+			if d := time.Since(t0); d > 2*time.Second && os.Getenv("VERIF_DEBUG") != "" {
+				fmt.Fprintf(os.Stderr, "slow builtin program %s: %v\n", name, d)
+			}
+		}(t0, p.Template)
+		w.SetCase(func() any { return Case{Program: p} })
+		want := make([]string, len(matches))
+		ok := true
+		for i := base; i < len(matches); i++ {
+			func() {
+				defer func() {
+					if recover() != nil {
+						ok = false // panics are C08's subject
+					}
+				}()
+				want[i] = alone(&p, matches[i])
+			}()
+		}
+		if !ok {
+			continue
+		}
+		// a helper that is stateful by design (the time format cached from the
+		// first parsed value) gives order-dependent results already sequentially:
+		// the statement's "evaluates like alone" is not defined for it
+		if !orderIndependent(&p, matches[base], matches[base+1], want[base], want[base+1]) {
+			w.Add("builtin_programs_order_dependent_by_design", 1)
+			continue
+		}
+		for _, optimize := range []bool{true, false} {
+			c := &Case{Program: p, Optimize: optimize, Gs: []int{base, base + 1}}
+			ex := mc.New(b)
+			for ex.Next() {
+				w.SetCase(func() any { cc := *c; cc.Vector = ex.Vector(); return cc })
+				o, res := run(ex, c, false)
+				ex.EndExecution()
+				w.Eval(res.Switches > 1)
+				w.Add("transitions", int64(res.Steps))
+				for _, f := range check(c, o, res, want) {
+					cc := *c
+					cc.Vector = ex.Vector()
+					w.Violation(f.sig, f.detail, cc)
+				}
+				w.Outcome(p.Template, fmt.Sprint(optimize), fmt.Sprint(o.results))
+			}
+			w.Add("choice_points", ex.ChoicePoints)
+		}
+		w.Add("builtin_programs", 1)
+	}
+}
+
+// orderIndependent evaluates one compiled expression sequentially on a then b
+// and on b then a and compares with the evaluations alone.
+func orderIndependent(p *program, a, b *match, wa, wb string) (ok bool) {
+	defer func() {
+		if recover() != nil {
+			ok = false
+		}
+	}()
+	for _, order := range [][2]*match{{a, b}, {b, a}} {
+		stdlib.VerifResetPools()
+		c, err := compile(p, false)
+		if err != nil {
+			return false
+		}
+		for _, m := range order {
+			got := c.BuildKey(&ctx{m: m})
+			want := wa
+			if m == b {
+				want = wb
+			}
+			if got != want {
+				return false
+			}
+		}
+	}
+	return true
 }
 
 func replayOf(vec []int) *mc.Explorer {
@@ -290,9 +437,15 @@ func replay(w *runner.W, raw json.RawMessage) {
 	if err := json.Unmarshal(raw, &c); err != nil {
 		panic(err)
 	}
+	if strings.HasPrefix(c.Program.Name, "builtin/") {
+		matches = append(matches, numMatches...)
+	}
 	want := make([]string, len(matches))
 	for i, m := range matches {
-		want[i] = alone(&c.Program, m)
+		func() {
+			defer func() { recover() }()
+			want[i] = alone(&c.Program, m)
+		}()
 	}
 	o, res := run(replayOf(c.Vector), &c, true)
 	for _, f := range check(&c, o, res, want) {
